@@ -22,6 +22,27 @@ type Case struct {
 	Fee      string   `json:"fee"`
 	ExitFee  string   `json:"exit_fee,omitempty"`
 	Size     string   `json:"size"`
+	// denom positions the operation acts on: swaps go I -> J, single-asset operations act on I.
+	// Both zero means the default (0 -> 1), which keeps the signatures of the two-asset lattice unchanged.
+	I int `json:"i,omitempty"`
+	J int `json:"j,omitempty"`
+}
+
+// pos returns the effective denom positions.
+func (c Case) pos() (int, int) {
+	if c.I == 0 && c.J == 0 {
+		return 0, 1
+	}
+	return c.I, c.J
+}
+
+func isPairOp(op string) bool { return op == "swapOutGivenIn" || op == "swapInGivenOut" }
+func isSingleOp(op string) bool {
+	switch op {
+	case "joinSingleTokenIn", "joinSingleSharesOut", "joinSingleSharesOutTrunc", "exitSingleTokenOut", "joinSingle", "exitSingleComposite":
+		return true
+	}
+	return false
 }
 
 func (c Case) sig() string {
@@ -34,7 +55,14 @@ func (c Case) sig() string {
 	if c.ExitFee != "" && c.ExitFee != "0" {
 		fee += "+x" + c.ExitFee
 	}
-	return fmt.Sprintf("%s|%s|%s|%s|%s|%s", c.Pool, c.Op, res, ws, fee, c.Size)
+	sig := fmt.Sprintf("%s|%s|%s|%s|%s|%s", c.Pool, c.Op, res, ws, fee, c.Size)
+	i, j := c.pos()
+	if isPairOp(c.Op) && (i != 0 || j != 1) {
+		sig += fmt.Sprintf("|%d>%d", i, j)
+	} else if isSingleOp(c.Op) && i != 0 {
+		sig += fmt.Sprintf("|@%d", i)
+	}
+	return sig
 }
 
 var balOps = []string{"swapOutGivenIn", "swapInGivenOut", "joinSingleTokenIn", "joinSingleSharesOut",
@@ -186,7 +214,8 @@ func evalBal(sk sink, c Case) {
 		exitFeeR = ratOf(c.ExitFee)
 	}
 	before := snapBal(p)
-	A, B, S := before.B[0], before.B[1], before.S
+	pi, pj := c.pos()
+	A, B, S := before.B[pi], before.B[pj], before.S
 	if c.Fee == "0" {
 		sk.vac("zero_fee_cases")
 	}
@@ -197,7 +226,7 @@ func evalBal(sk sink, c Case) {
 	if new(big.Int).Quo(mx, mn).Cmp(mustInts("1000000000000000000000000")[0]) >= 0 {
 		sk.vac("unbalanced_ge_1e24_evaluated")
 	}
-	wa := normW(w, 0)
+	wa := normW(w, pi)
 	// feeRatio for single-asset operations on asset a: 1 - (1-wa)*fee
 	fr := rSub(rOne, rMul(rSub(rOne, wa), feeR))
 
@@ -210,12 +239,12 @@ func evalBal(sk sink, c Case) {
 		}
 		var calc, out sdk.Coin
 		cl1 := try(func() (e error) {
-			calc, e = p.CalcOutAmtGivenIn(ctx, sdk.Coins{coin(0, in)}, denoms[1], fee)
+			calc, e = p.CalcOutAmtGivenIn(ctx, sdk.Coins{coin(pi, in)}, denoms[pj], fee)
 			return
 		})
 		sk.transition()
 		cl := try(func() (e error) {
-			out, e = p.SwapOutAmtGivenIn(ctx, sdk.Coins{coin(0, in)}, denoms[1], fee)
+			out, e = p.SwapOutAmtGivenIn(ctx, sdk.Coins{coin(pi, in)}, denoms[pj], fee)
 			return
 		})
 		sk.transition()
@@ -228,7 +257,7 @@ func evalBal(sk sink, c Case) {
 		}
 		// exact: B*(1 - (A/(A+in(1-f)))^(wa/wb))
 		base := rQuo(rInt(A), rAdd(rInt(A), rMul(rInt(in), rSub(rOne, feeR))))
-		pw := powRat(base, big.NewRat(w[0], w[1]))
+		pw := powRat(base, big.NewRat(w[pi], w[pj]))
 		exact := nf().Mul(fInt(B), nf().Sub(fI64(1), pw))
 		formulaCheck(sk, c, "swap_out_given_in", out.Amount.BigInt(), exact, B, +1)
 		perShareCheck(sk, c, before, snapBal(p), w, nil)
@@ -242,12 +271,12 @@ func evalBal(sk sink, c Case) {
 		mustFail := new(big.Int).Lsh(out, 1).Cmp(B) >= 0
 		var calc, in sdk.Coin
 		cl1 := try(func() (e error) {
-			calc, e = p.CalcInAmtGivenOut(ctx, sdk.Coins{coin(1, out)}, denoms[0], fee)
+			calc, e = p.CalcInAmtGivenOut(ctx, sdk.Coins{coin(pj, out)}, denoms[pi], fee)
 			return
 		})
 		sk.transition()
 		cl := try(func() (e error) {
-			in, e = p.SwapInAmtGivenOut(ctx, sdk.Coins{coin(1, out)}, denoms[0], fee)
+			in, e = p.SwapInAmtGivenOut(ctx, sdk.Coins{coin(pj, out)}, denoms[pi], fee)
 			return
 		})
 		sk.transition()
@@ -267,7 +296,7 @@ func evalBal(sk sink, c Case) {
 		}
 		// exact: A*((B/(B-out))^(wb/wa) - 1)/(1-f)
 		base := rQuo(rInt(B), rSub(rInt(B), rInt(out)))
-		pw := powRat(base, big.NewRat(w[1], w[0]))
+		pw := powRat(base, big.NewRat(w[pj], w[pi]))
 		exact := nf().Mul(fInt(A), nf().Sub(pw, fI64(1)))
 		exact.Quo(exact, fRat(rSub(rOne, feeR)))
 		formulaCheck(sk, c, "swap_in_given_out", in.Amount.BigInt(), exact, A, -1)
@@ -283,12 +312,12 @@ func evalBal(sk sink, c Case) {
 		mustFail := base.Cmp(rI64(2)) >= 0
 		var calc, shares osmomath.Int
 		cl1 := try(func() (e error) {
-			calc, _, e = p.CalcJoinPoolShares(ctx, sdk.Coins{coin(0, in)}, fee)
+			calc, _, e = p.CalcJoinPoolShares(ctx, sdk.Coins{coin(pi, in)}, fee)
 			return
 		})
 		sk.transition()
 		cl := try(func() (e error) {
-			shares, e = p.JoinPool(ctx, sdk.Coins{coin(0, in)}, fee)
+			shares, e = p.JoinPool(ctx, sdk.Coins{coin(pi, in)}, fee)
 			return
 		})
 		sk.transition()
@@ -325,12 +354,12 @@ func evalBal(sk sink, c Case) {
 		var tokIn osmomath.Int
 		cl := try(func() (e error) {
 			if c.Op == "joinSingleSharesOut" {
-				tokIn, e = p.CalcTokenInShareAmountOut(ctx, denoms[0], sdkInt(sh), fee)
+				tokIn, e = p.CalcTokenInShareAmountOut(ctx, denoms[pi], sdkInt(sh), fee)
 				if e == nil {
-					p.IncreaseLiquidity(sdkInt(sh), sdk.Coins{sdk.NewCoin(denoms[0], tokIn)})
+					p.IncreaseLiquidity(sdkInt(sh), sdk.Coins{sdk.NewCoin(denoms[pi], tokIn)})
 				}
 			} else {
-				tokIn, e = p.JoinPoolTokenInMaxShareAmountOut(ctx, denoms[0], sdkInt(sh))
+				tokIn, e = p.JoinPoolTokenInMaxShareAmountOut(ctx, denoms[pi], sdkInt(sh))
 				if e == nil {
 					p.AddTotalShares(sdkInt(sh))
 				}
@@ -360,7 +389,7 @@ func evalBal(sk sink, c Case) {
 		if c.Op == "joinSingleSharesOutTrunc" {
 			// this entry point truncates the token amount: one token unit in the user's favour, counted
 			// explicitly: relative effect wa * 1/B'_a
-			units = nf().Quo(fRat(wa), fInt(after.B[0]))
+			units = nf().Quo(fRat(wa), fInt(after.B[pi]))
 		}
 		perShareCheck(sk, c, before, after, w, units)
 
@@ -374,7 +403,7 @@ func evalBal(sk sink, c Case) {
 		mustFail := outFee.Cmp(rInt(A)) >= 0
 		var sharesIn osmomath.Int
 		cl := try(func() (e error) {
-			sharesIn, e = p.ExitSwapExactAmountOut(ctx, coin(0, out), hugeShares)
+			sharesIn, e = p.ExitSwapExactAmountOut(ctx, coin(pi, out), hugeShares)
 			return
 		})
 		sk.transition()
